@@ -579,3 +579,14 @@ Example C10_forward_ex :
   map (node_getattr [[110; 97; 109; 101]%Z] (Some true) [([110; 97; 109; 101]%Z, PStr [65]%Z); ([97; 103; 101]%Z, PInt 23)])
       [[110; 97; 109; 101]%Z; [97; 103; 101]%Z; [120]%Z] = [GOwn; GData (PInt 23); GAttrErr].
 Proof. reflexivity. Qed.
+
+(* tie to the source (gen_facts section MISC): every name of the documented list of native attributes is found on the Node
+   class itself (so it is never forwarded); `kind` is native on a TypedNode only – a plain node forwards it *)
+Theorem C10_forward_native_names_from_source :
+  GEN_MISC_OK = true /\
+  forallb (fun n => mem_text n NODE_ATTR_NAMES)
+    [[99; 104; 105; 108; 100; 114; 101; 110]; [100; 97; 116; 97; 95; 105; 100]; [100; 97; 116; 97]; [109; 101; 116; 97];
+     [110; 111; 100; 101; 95; 105; 100]; [112; 97; 114; 101; 110; 116]; [116; 114; 101; 101]; [110; 97; 109; 101]; [112; 97; 116; 104]]%Z = true /\
+  mem_text [107; 105; 110; 100]%Z NODE_ATTR_NAMES = false /\ mem_text [107; 105; 110; 100]%Z TYPED_NODE_EXTRA_ATTR_NAMES = true.
+Proof. vm_compute. repeat split. Qed.
+Print Assumptions C10_forward_native_names_from_source.
